@@ -53,6 +53,53 @@ func (d *Driver) DisciplineGuards(structs []string) *FuncVC {
 			}
 		}
 	}
+	// 1b. bufferedchan T.f: every channel stored into the field is created by make(chan X, n) with a constant n >= 1
+	// (the channel is sent to while a mutex is held: an unbuffered channel would make the sender wait, under the
+	// lock, for a receiver that may need the same lock)
+	for _, gd := range d.cs.Buffered {
+		found := false
+		for k, fn := range d.fns {
+			if strings.HasPrefix(k, "init@") || strings.HasSuffix(prog_file(d, fn), "_test.go") {
+				continue
+			}
+			for _, b := range fn.Blocks {
+				for _, ins := range b.Instrs {
+					st, ok := ins.(*ssa.Store)
+					if !ok {
+						continue
+					}
+					fa, ok := st.Addr.(*ssa.FieldAddr)
+					if !ok {
+						continue
+					}
+					pt, ok := fa.X.Type().Underlying().(*types.Pointer)
+					if !ok {
+						continue
+					}
+					stt, ok := pt.Elem().Underlying().(*types.Struct)
+					if !ok || d.w.typeName(pt.Elem())+"."+stt.Field(fa.Field).Name() != gd.Field {
+						continue
+					}
+					found = true
+					name := fmt.Sprintf("guards/buffered@%s in %s", gd.Field, k)
+					pos := d.prog.Fset.Position(st.Pos()).String()
+					mc, isMake := st.Val.(*ssa.MakeChan)
+					if !isMake {
+						fail("guard-buffered", name, gd.Field+" must hold a channel created with a positive constant capacity, but a value of unknown origin is stored", pos)
+						continue
+					}
+					if c, isConst := mc.Size.(*ssa.Const); isConst && c.Int64() >= 1 {
+						pass("guard-buffered", name, fmt.Sprintf("created with capacity %d", c.Int64()), pos)
+					} else {
+						fail("guard-buffered", name, gd.Field+" is sent to while a mutex is held and must be buffered, but it is created unbuffered or with a capacity that is not a positive constant", pos)
+					}
+				}
+			}
+		}
+		if !found {
+			fail("guard-buffered", "guards/buffered@"+gd.Field, "no creation site found for "+gd.Field, "")
+		}
+	}
 	// 2. call graph and goroutine roots
 	cg := cha.CallGraph(d.prog)
 	roots := map[*ssa.Function]bool{}
